@@ -282,9 +282,9 @@ def _ts(MaxNodes, MaxNest, Vals, DocNames, AllCaps, WithInvalid="TRUE", Roots="R
     return dict(MaxNodes=MaxNodes, MaxNest=MaxNest, Vals=Vals, DocNames=DocNames, Roots=Roots, AllCaps=AllCaps, WithInvalid=WithInvalid)
 
 TOSTRING_STAGES = {
-    "C13": {"quick":    [("caps-text", _ts(2, 3, "ValsText", "NamesAB", "TRUE")),
+    "C13": {"quick":    [("caps-text", _ts(3, 3, "ValsText", "NamesAB", "TRUE")),
                          ("caps-wide", _ts(1, 2, "ValsWide", "NamesOdd", "TRUE"))],
-            "thorough": [("caps-text", _ts(3, 3, "ValsText", "NamesAB", "TRUE")),
+            "thorough": [("caps-text", _ts(4, 3, "ValsText", "NamesAB", "TRUE")),
                          ("caps-wide", _ts(2, 2, "ValsWide", "NamesOdd", "TRUE"))]},
     "C14": {"quick":    [("siblings", _ts(5, 4, "ValsOne", "NamesAB", "FALSE", "FALSE")),
                          ("values", _ts(2, 2, "ValsWide", "NamesOdd", "FALSE", "FALSE")),
@@ -322,3 +322,26 @@ def check_tostring(prop, tier, replay):
 
 REGISTRY["C13"] = check_tostring
 REGISTRY["C14"] = check_tostring
+
+
+# ---------------------------------------------------------------- C15 -------
+CLASS_STAGES = {
+    "quick":    [("bytes-k3", dict(K=3, Sigma="SigmaC", Families="TRUE"))],
+    "thorough": [("bytes-k4", dict(K=4, Sigma="SigmaC", Families="TRUE"))],
+}
+ASSUME_CLASS = [
+    "Layer I (spec/ClassImpl.tla) models binson.cpp as call scripts over ParserImpl/WriterImpl",
+    "each batch of behaviours runs in a forked child under ASan/UBSan: a crash is an observation attributed to its behaviour",
+    "std::map<std::string,...> order is the platform's std::string order (unsigned bytewise)",
+]
+
+
+def check_class(prop, tier, replay):
+    if replay:
+        return replay_file(prop, replay, "replay_class")
+    t0 = time.time()
+    stages = [product_stage(prop, name, "MC_Class.tla", "MC_Class.cfg", c, replayer="replay_class") for name, c in CLASS_STAGES[tier]]
+    return finish(prop, tier, stages, t0, ASSUME_CLASS)
+
+
+REGISTRY["C15"] = check_class
